@@ -8,6 +8,8 @@ E2 every access to the content of an optional-like object (std::optional / tl::e
 from lib import ex as X
 from lib.engage import Promises
 from lib.mustflow import MustFlow
+from lib.condflow import CondFlow, implies_le
+from lib.norm import lin, rn
 from lib.report import Ctx
 from rules import common as C
 
@@ -16,11 +18,17 @@ PROP = "C02"
 
 def make_ctx(tier):
     return Ctx(PROP, tier, "other",
-               "E1: census of throw expressions (0) and try-fencing of every std::regex construction / search / match; "
-               "E2: must-dataflow of engagement facts (branch conditions, value assignments, emplace, engaged copies, "
-               "callee promises computed from callee bodies) to every value()/operator*/operator-> on std::optional and "
-               "tl::expected in first-party code. NOT decided: absence of out-of-bounds accesses, integer overflow, leaks "
-               "and non-termination in general.",
+               "Decides the clauses of C02 whose truth is in the shape of the code. E1: no throw expression in first-party code; "
+               "every std::regex construction / search / match is inside a try that catches std::regex_error. E2/E2b: every "
+               "value()/operator*/operator-> on std::optional and tl::expected, and every std::get<T> on a variant, is dominated "
+               "by a fact establishing engagement / the alternative (must-dataflow over the CFG with branch facts, value "
+               "assignments, callee promises computed from callee bodies, implications that survive joins). M1/M2: every SIMD "
+               "load and fixed-width memcpy word is inside its buffer by a dominating guard in normal form (offset + n <= size; "
+               "tail loads need size >= n; masked AVX-512 loads need len <= lanes in the function or in every caller); copies into "
+               "stack arrays are bounded by the array size. T1: the URL parser's state loop has a lexicographic ranking (acyclic "
+               "state-change graph; every trip that keeps the state advances input_position). T2: each of the loops that has a "
+               "recognised variant keeps it. NOT decided: out-of-bounds accesses through operator[] / iterators / substr in "
+               "general, integer overflow, leaks, termination of the loops listed as unclassified, uninitialised reads.",
                C.ASSUMPTIONS, C.TRUSTED)
 
 
@@ -30,12 +38,25 @@ first_party = C.first_party
 def run(ctx, tier):
     ctx.rule("E1", "no exception can leave the library: no throw, regex calls fenced")
     ctx.rule("E2", "optional-like objects are accessed only when engaged")
+    ctx.rule("E2b", "std::get<T> on a variant only when it holds T")
+    ctx.rule("T1", "the URL parser's state loop has a lexicographic ranking (state order, remaining input)")
+    ctx.rule("T2", "loops keep the variant that makes them terminate")
+    ctx.rule("M1", "fixed-width block reads/writes (SIMD loads, 8-byte memcpy words) stay inside the buffer")
+    ctx.rule("M2", "copies into fixed-size stack arrays are bounded by the array size")
     cfgs = ["release"] if tier == "quick" else ["release", "devchecks", "amalgamated", "avx512"]
-    fxs = C.load_configs(ctx, cfgs)
+    isa = ["release"] if tier == "quick" else ["release", "ssse3", "avx512"]
+    fxs = C.load_configs(ctx, cfgs + [c for c in isa if c not in cfgs])
     for name in cfgs:
         ctx.set_config(name)
         check_exceptions(ctx, fxs[name])
         check_engagement(ctx, fxs[name])
+    for name in isa:
+        ctx.set_config(name)
+        check_blocks(ctx, fxs[name], name)
+    for name in cfgs:
+        ctx.set_config(name)
+        check_parser_loop(ctx, fxs[name])
+        check_loops(ctx, fxs[name], name)
 
 
 # ---------------------------------------------------------------------------
@@ -51,7 +72,7 @@ def check_exceptions(ctx, fx):
         for t in f.get("throws", []):
             ctx.fail("E1", "%s: throw expression" % f["qname"], "first-party code throws: the library's contract is to report "
                      "failure through its result types, and callers (including the C API) do not catch",
-                     where=(t.get("loc") or f["loc"]).replace("/repo/", ""))
+                     where=((t.get("loc") if isinstance(t, dict) else t) or f["loc"]).replace("/repo/", ""))
         if not f.get("throws"):
             ctx.ok("E1", "%s: no throw" % f["key"], "none", where=f["loc"].replace("/repo/", ""), nontrivial=False)
     ctx.floor("E1", nfun, 500, "first-party function bodies scanned for throw")
@@ -126,9 +147,26 @@ def engaged_handle_types(fx):
 KNOWN_VALID_URLS = {"https://dummy.test", "fake://fake-url"}
 
 
+def split_targs(t):
+    out, depth, cur = [], 0, ""
+    for ch in t:
+        if ch in "<(":
+            depth += 1
+        elif ch in ">)":
+            depth -= 1
+        if ch == "," and depth == 0:
+            out.append(cur.strip())
+            cur = ""
+        else:
+            cur += ch
+    if cur.strip():
+        out.append(cur.strip())
+    return out
+
+
 def check_engagement(ctx, fx):
     post = Promises(fx)
-    nsite = 0
+    nsite = nget = 0
     for f in fx.functions:
         if not first_party(f):
             continue
@@ -143,9 +181,33 @@ def check_engagement(ctx, fx):
                     if n.get("k") == "call" and n.get("name") in ("value", "operator*", "operator->") and n.get("recv") is not None \
                             and (n.get("cls") or "").startswith(("std::optional<", "tl::expected<")):
                         sites.append((b["id"], i, s, n))
-        if not sites:
+        gets = []
+        for b in f["blocks"]:
+            items = [(i, s, list(X.stmt_nodes(s, local=True))) for i, s in enumerate(b["stmts"])]
+            c = C.term_cond(b)
+            if c is not None:
+                items.append((len(b["stmts"]), b["term"], list(X.walk(c, local=True))))
+            for i, s, nodes in items:
+                for n in nodes:
+                    if n.get("k") == "call" and n.get("qname") == "std::get" and n.get("args") and "variant<" in (n.get("callee") or ""):
+                        gets.append((b["id"], i, s, n))
+        if not sites and not gets:
             continue
         mf = MustFlow(f, post=post)
+        for bid, i, s, n in gets:
+            fs = mf.facts_before(bid, i)
+            if fs is None:
+                continue
+            nget += 1
+            targs = split_targs(n["callee"].split("<", 1)[1].split(">(")[0])
+            want, alts = targs[0], targs[1:]
+            p = X.path(n["args"][0])
+            have = {x.split("|", 1)[1].split(", ")[0] if False else split_targs(x.split("|", 1)[1])[0] for x in fs if x.startswith("alt:%s|" % p)}
+            nots = {split_targs(x.split("|", 1)[1])[0] for x in fs if x.startswith("nalt:%s|" % p)}
+            ok = want in have or (len(alts) >= 2 and all(a in nots for a in set(alts) if a != want))
+            ctx.check("E2b", "%s: %s" % (f["qname"], X.show(n)[:60]), ok, "alternative established on every path",
+                      "std::get<%s> is reached on a path where nothing establishes that the variant holds that alternative: it "
+                      "throws std::bad_variant_access" % want, where=(s.get("loc") or s.get("cond_loc") or "").replace("/repo/", ""))
         for bid, i, s, n in sites:
             fs = mf.facts_before(bid, i)
             if fs is None:
@@ -165,3 +227,412 @@ def check_engagement(ctx, fx):
             ctx.fail("E2", key, "`%s` is reached on a path where nothing establishes that `%s` is engaged; on a disengaged object it %s"
                      % (X.show(n)[:70], X.show(n["recv"])[:50], kind), where=where)
     ctx.floor("E2", nsite, 300, "accesses to optional-like objects")
+    ctx.floor("E2b", nget, 6, "std::get<T>(variant) sites")
+
+
+# ---------------------------------------------------------------------------
+ELEM = {"char": 1, "unsigned char": 1, "uint8_t": 1, "void": 1, "__m128i": 16, "uint16_t": 2, "char16_t": 2,
+        "uint32_t": 4, "char32_t": 4, "unsigned int": 4, "uint64_t": 8, "unsigned long": 8, "size_t": 8, "int": 4}
+
+
+def elem_size(ty):
+    t = (ty or "").replace("const ", "").replace("*", "").replace("&", "").strip()
+    return ELEM.get(t)
+
+
+def sizeof_ty(ty):
+    import re
+    t = (ty or "").replace("const ", "").strip()
+    m = re.match(r"^(.*?)\s*\[(\d+)\]$", t)
+    if m and elem_size(m.group(1)):
+        return elem_size(m.group(1)) * int(m.group(2))
+    return elem_size(t)
+
+
+def pointer_parts(e):
+    """Split a pointer expression into (base node, index expression node list as (sign, node))."""
+    e = X.strip(e)
+    base, idx = None, []
+
+    def go(x, sign):
+        nonlocal base
+        x = X.strip(x)
+        if isinstance(x, dict) and x.get("k") == "bin" and x.get("op") in ("+", "-"):
+            go(x["l"], sign)
+            go(x["r"], sign if x["op"] == "+" else -sign)
+            return
+        ty = x.get("ty", "") if isinstance(x, dict) else ""
+        if isinstance(x, dict) and ("*" in ty or (x.get("k") == "call" and x.get("name") == "data")) and base is None and sign > 0:
+            base = x
+        else:
+            idx.append((sign, x))
+    go(e, 1)
+    return base, idx
+
+
+def idx_lin(idx):
+    """linear normal form of the index terms"""
+    e = {"k": "lit", "v": 0}
+    for sign, x in idx:
+        e = {"k": "bin", "op": "+" if sign > 0 else "-", "l": e, "r": x}
+    return lin(e)
+
+
+def upper_ok(facts, iterms, iconst, n):
+    """exists S:  I + iconst + n <= S   from a fact  I - S + c OP 0"""
+    for (op, ts, c) in facts:
+        negs = [t for t in ts if t.startswith("-")]
+        pos = tuple(t for t in ts if t.startswith("+"))
+        if len(negs) != 1 or pos != tuple(iterms):
+            continue
+        need = iconst + n
+        if (op == "le" and c >= need) or (op == "lt" and c + 1 >= need) or (op == "eq" and c >= need):
+            return negs[0][1:]
+    return None
+
+
+# block accesses whose bound is established by arithmetic outside the guard language (one line of reason each)
+_DD = "ada::unicode::is_double_dot_path_segment(std::string_view)::(anonymous class)::operator()"
+M1_EXEMPT = {
+    (_DD, "a.data()"): "the only caller passes `input` after `uint64_t(input.size()) / 2 - 1 > 2 -> return false` (size is 2, 4 or 6)",
+    (_DD, "b.data()"): "the only caller passes a table entry whose size was just compared equal to input.size() (2, 4 or 6)",
+}
+
+
+def check_blocks(ctx, fx, cfg):
+    nblk = nstack = 0
+    unclassified = []
+    for f in fx.functions:
+        if not C.first_party(f):
+            continue
+        sites = []
+        for b in f["blocks"]:
+            for i, st in enumerate(b["stmts"]):
+                for n in X.stmt_nodes(st, local=True):
+                    if n.get("k") == "call" and (n.get("name") in ("memcpy", "_mm_loadu_si128") or
+                                                 "maskz_loadu" in (n.get("name") or "") or
+                                                 (n.get("name") or "").startswith("__builtin_ia32_loaddqu")):
+                        sites.append((b, i, st, n))
+        if not sites:
+            continue
+        cf = CondFlow(f)
+        seen = set()
+        for b, i, st, n in sites:
+            if id(n) in seen:
+                continue
+            seen.add(id(n))
+            facts = cf.facts_before(b["id"], i)
+            if facts is None:
+                continue
+            where = (st.get("loc") or "").replace("/repo/", "")
+            nm = n["name"]
+            if nm == "_mm_loadu_si128":
+                sides = [("read", n["args"][0], 16, None)]
+            elif "maskz_loadu" in nm:
+                nblk += check_masked(ctx, fx, f, b, i, st, n, facts, where)
+                continue
+            else:
+                cnt = n["args"][2]
+                cv = X.const_val(cnt)
+                sides = [("write", n["args"][0], cv, cnt), ("read", n["args"][1], cv, cnt)]
+            for (what, ptr, nbytes, cnt) in sides:
+                p0 = X.strip(ptr)
+                key = "%s: %s side of %s" % (f["qname"], what, X.show(n)[:70])
+                # &local  /  local array: the object's size bounds the count
+                tgt = p0["e"] if isinstance(p0, dict) and p0.get("k") == "un" and p0.get("op") == "&" else p0
+                if isinstance(tgt, dict) and tgt.get("k") == "ref" and tgt.get("kind") == "local" and \
+                        (p0 is not tgt or "[" in (tgt.get("ty") or "")) and sizeof_ty(tgt.get("ty")):
+                    cap = sizeof_ty(tgt["ty"])
+                    rule = "M2" if "[" in tgt["ty"] else "M1"
+                    if nbytes is not None:
+                        ok = nbytes <= cap
+                        how = "%d bytes into %d" % (nbytes, cap)
+                    else:
+                        ts, c = lin(cnt)
+                        ok = implies_le(facts, ts, c - cap)
+                        how = "count %s <= %d by a dominating guard" % (rn(cnt), cap)
+                        # a difference S - I must not wrap: I <= S
+                        if ok and any(t.startswith("-") for t in ts):
+                            ok = implies_le(facts, tuple(sorted(("-" + t[1:]) if t.startswith("+") else ("+" + t[1:]) for t in ts)), -c) or \
+                                implies_le(facts, tuple(sorted((("-" + t[1:]) if t.startswith("+") else ("+" + t[1:]) for t in ts),
+                                                               key=lambda t: (t[0] != "+", t[1:]))), -c)
+                            how += ", no wrap-around"
+                    if rule == "M2":
+                        nstack += 1
+                    else:
+                        nblk += 1
+                    ctx.check(rule, key, ok, how,
+                              "%s of %s bytes %s `%s` (%d bytes) is not bounded by a guard that holds on every path: stack "
+                              "buffer overflow" % (what, nbytes if nbytes is not None else rn(cnt), "to" if what == "write" else "from",
+                                                  tgt["name"], cap), where=where)
+                    continue
+                base, idx = pointer_parts(ptr)
+                if base is None:
+                    unclassified.append((key, where))
+                    continue
+                es = elem_size(base.get("ty")) or 1
+                if nbytes is None:
+                    # count S - I at base + I (I a non-empty cursor): the access ends exactly at S; it starts inside when I <= S
+                    ts, c = lin(cnt)
+                    its, ic = idx_lin(idx)
+                    pos = tuple(t for t in ts if t.startswith("+"))
+                    negs = tuple("+" + t[1:] for t in ts if t.startswith("-"))
+                    if c == 0 and ic == 0 and negs and negs == its and len(pos) == 1:
+                        nowrap = implies_le(facts, tuple(sorted(list(its) + ["-" + pos[0][1:]], key=lambda t: (t[0] != "+", t[1:]))), 0)
+                        nblk += 1
+                        ctx.check("M1", key, nowrap, "count %s at offset %s ends exactly at %s, and offset <= %s by the dominating guard"
+                                  % (rn(cnt), "".join(its), pos[0][1:], pos[0][1:]),
+                                  "the count `%s` wraps around unless %s <= %s, which no dominating guard establishes"
+                                  % (rn(cnt), "".join(its), pos[0][1:]), where=where)
+                    else:
+                        unclassified.append((key, where))
+                    continue
+                nel = -(-nbytes // es)
+                its, ic = idx_lin(idx)
+                # tail form: base + S - n  (reads the last n elements): needs S >= n
+                if any(t.startswith("+") and t.endswith(".size()") for t in its) and ic == -nel:
+                    S = [t for t in its if t.endswith(".size()")][0][1:]
+                    okl = False
+                    for (op, ts, c) in facts:
+                        if ("-" + S) in ts and all(t.startswith("+") or t == "-" + S for t in ts):
+                            if (op == "le" and c >= nel) or (op == "lt" and c + 1 >= nel):
+                                okl = True
+                    nblk += 1
+                    ctx.check("M1", key, okl, "%s >= %d on every path (entry guard sends shorter inputs to the scalar path)" % (S, nel),
+                              "the block of %d elements ending at the end of the buffer starts before its beginning unless %s >= %d, "
+                              "and no guard establishes that on every path: out-of-bounds read of up to %d bytes in front of the "
+                              "buffer" % (nel, S, nel, nbytes), where=where)
+                    continue
+                if not its:
+                    # no cursor: `n bytes at the start of the buffer` needs a size fact about this very buffer
+                    S = None
+                    if base.get("k") == "call" and base.get("name") == "data" and base.get("recv") is not None:
+                        want = rn(base["recv"]) + ".size()"
+                        if implies_le(facts, ("-" + want,), nel + ic):
+                            S = want
+                    elif (f["qname"], rn(ptr)) not in M1_EXEMPT:
+                        unclassified.append((key, where))
+                        continue
+                else:
+                    S = upper_ok(facts, its, ic, nel)
+                    if S is not None and base.get("k") == "call" and base.get("name") == "data" and base.get("recv") is not None \
+                            and S != rn(base["recv"]) + ".size()":
+                        S = None
+                if S is None and (f["qname"], rn(ptr)) in M1_EXEMPT:
+                    nblk += 1
+                    ctx.ok("M1", key, "exempt: " + M1_EXEMPT[(f["qname"], rn(ptr))], where=where)
+                    continue
+                nblk += 1
+                ctx.check("M1", key, S is not None, "offset %s%+d + %d <= %s by the dominating guard" % ("".join(its) or "0", ic, nel, S),
+                          "%d bytes are %s at `%s` and no guard of the form `offset + %d <= size` holds on every path to it: "
+                          "out-of-bounds access past the end of the buffer" % (nbytes, "read" if what == "read" else "written", rn(ptr), nel + ic),
+                          where=where)
+    ctx.floor("M1", nblk, {"release": 34, "ssse3": 34, "avx512": 36}.get(cfg, 34), "block accesses classified")
+    ctx.floor("M2", nstack, 3, "copies into stack arrays")
+    ctx.note("M1 (%s): %d memcpy sides are outside the decided patterns (destination sized by a separate computation, "
+             "inflate window, C-API copies): %s" % (cfg, len(unclassified), "; ".join(sorted({k.split(": ")[0] for k, w in unclassified}))))
+
+
+def check_masked(ctx, fx, f, b, i, st, n, facts, where):
+    """_mm(512)_maskz_loadu_epi8(live, data): reads exactly the bytes whose mask bit is set; live = (1 << len) - 1
+    and len <= lanes on every path (guard in the function or in every caller)."""
+    lanes = 64 if "512" in n["name"] else 16
+    mask = X.strip(n["args"][0])
+    key = "%s: %s" % (f["qname"], X.show(n)[:60])
+    init = None
+    for bb in f["blocks"]:
+        for s2 in bb["stmts"]:
+            if s2["k"] == "decl":
+                for v in s2["vars"]:
+                    if mask.get("k") == "ref" and v["id"] == mask.get("id"):
+                        init = v.get("init")
+    m = rn(init) if init is not None else ""
+    import re
+    mm = re.match(r"^\+?\(1<<(\w+)\)-1$", m)
+    if not mm:
+        ctx.fail("M1", key, "the load mask is `%s`, not of the form (1 << len) - 1: which bytes are read is not decided" % m, where=where)
+        return 1
+    ln = mm.group(1)
+    ok = implies_le(facts, ("+" + ln,), -lanes)
+    how = "len <= %d by a guard in the function" % lanes
+    if not ok:
+        # every caller establishes it
+        pidx = [k for k, p in enumerate(f["params"]) if p["name"] == ln]
+        callers = []
+        for g in fx.functions:
+            if not C.first_party(g):
+                continue
+            for bb in g["blocks"]:
+                for j, s2 in enumerate(bb["stmts"]):
+                    for c in X.stmt_nodes(s2, local=True):
+                        if c.get("k") == "call" and c.get("callee") == f["key"]:
+                            callers.append((g, bb, j, c))
+        ok = bool(callers) and bool(pidx)
+        for (g, bb, j, c) in callers:
+            fs = CondFlow(g).facts_before(bb["id"], j) or frozenset()
+            ts, cc = lin(c["args"][pidx[0]]) if pidx else ((), 0)
+            if not implies_le(fs, ts, cc - lanes):
+                ok = False
+        how = "len <= %d established before the call in each of the %d caller(s)" % (lanes, len(callers))
+    ctx.check("M1", key, ok, how,
+              "the masked load reads `%s` bytes and nothing bounds it by the %d lanes of the register on every path: a longer "
+              "input shifts the mask out of range (undefined shift) and drops bytes" % (ln, lanes), where=where)
+    return 1
+
+
+# ---------------------------------------------------------------------------
+def check_parser_loop(ctx, fx):
+    """T1.  The loop `while (input_position <= input_size) switch (state)` terminates because
+    (a) the graph of state changes (X -> Y, Y != X, fallthrough included) is acyclic, so the state can change only
+        finitely often, and
+    (b) every trip round the loop that leaves the state unchanged strictly increases input_position (or puts it past
+        input_size), and nothing on that trip overwrites it.
+    (a)+(b) is a lexicographic ranking (topological rank of the state, input_size + 1 - input_position)."""
+    from lib import loops as L
+    from rules import statemachine as SM
+    nstates = 0
+    for f, M in SM.machines(fx):
+        tag = SM.inst_tag(f)
+        blk = M.blocks
+        G = {x: {y for y in (M.edges.get(x, set()) | M.fallthrough.get(x, set())) if y != x} for x in M.case_entry}
+        cyc = []
+        temp, perm = set(), set()
+
+        def visit(n, path):
+            if n in perm:
+                return
+            if n in temp:
+                cyc.append(path[path.index(n):] + [n])
+                return
+            temp.add(n)
+            for m in sorted(G.get(n, ())):
+                visit(m, path + [n])
+            temp.discard(n)
+            perm.add(n)
+        for n in sorted(G):
+            visit(n, [])
+        ctx.check("T1", "parse_url_impl<%s>: state-change graph is acyclic" % tag, not cyc,
+                  "%d states, %d edges, topological order exists" % (len(G), sum(len(v) for v in G.values())),
+                  "the parser can move through the states %s and back without any bound: with input_position reset or "
+                  "unchanged on those edges the loop does not terminate" % (" -> ".join(cyc[0]) if cyc else ""),
+                  where=f["loc"].replace("/repo/", ""))
+        head = sorted(M.loop_heads)[0]
+        hb = blk[head]
+        hc = hb["term"].get("cond")
+        bound = None
+        h0 = X.strip(hc) if hc is not None else None
+        if isinstance(h0, dict) and h0.get("k") == "bin" and h0.get("op") in ("<=", "<") and X.show(X.strip(h0["l"])) == "input_position":
+            bound = (h0["op"], rn(h0["r"]))
+        ctx.check("T1", "parse_url_impl<%s>: loop test bounds input_position" % tag, bound is not None,
+                  "while (input_position %s %s)" % (bound or ("?", "?")),
+                  "the parser loop's test is `%s`: not an upper bound on input_position" % hb["term"].get("cond_text"),
+                  where=(hb["term"].get("loc") or "").replace("/repo/", ""))
+        if bound is None:
+            continue
+        past = "+%s+1" % bound[1] if bound[0] == "<=" else "+%s" % bound[1]
+        for st, e0 in sorted(M.case_entry.items()):
+            reg = M.region[st]
+            IN = {e0: frozenset()}
+
+            def out(b):
+                fs = set(IN[b])
+                for s in blk[b]["stmts"]:
+                    for n in X.stmt_nodes(s, local=True):
+                        if n.get("k") == "assign" and n.get("op") == "=" and X.show(X.strip(n["lhs"])) == "state":
+                            if X.strip(n["rhs"]).get("name") != st:
+                                fs.add("chg")
+                                fs.add("P")
+                            continue
+                        for d, p in L.progress_of(n):
+                            if not p.endswith(":input_position"):
+                                continue
+                            if d == "up":
+                                fs.add("P")
+                                fs.add("up")
+                            elif n.get("k") == "assign" and n.get("op") == "=" and rn(n["rhs"]) in (past, past.lstrip("+")):
+                                fs.add("P")
+                                fs.add("up")          # input_position = input_size + 1: the loop test fails next
+                            else:
+                                fs.discard("up")
+                                if "chg" not in fs:
+                                    fs.discard("P")
+                return frozenset(fs)
+            changed = True
+            while changed:
+                changed = False
+                for b in sorted(reg, reverse=True):
+                    if b == e0:
+                        continue
+                    acc = None
+                    for p in reg:
+                        if p in IN and any(e["to"] == b and not e.get("pruned") for e in blk[p]["succ"]):
+                            o = out(p)
+                            acc = o if acc is None else (acc & o)
+                    if acc is not None and IN.get(b) != acc:
+                        IN[b] = acc
+                        changed = True
+            backs = [b for b in reg if b in IN and any(e["to"] in M.loop_heads and not e.get("pruned") for e in blk[b]["succ"])]
+            for b in backs:
+                # name the offending predecessor paths for the report
+                fs = out(b)
+                culprits = []
+                if "P" not in fs:
+                    for p in reg:
+                        if p in IN and any(e["to"] == b for e in blk[p]["succ"]) and "P" not in out(p):
+                            last = blk[p]["stmts"][-1] if blk[p]["stmts"] else None
+                            culprits.append((last.get("loc") if last else blk[p]["term"].get("loc") or "?").replace("/repo/", ""))
+                nstates += 1
+                ctx.check("T1", "parse_url_impl<%s>: state %s: every trip back to the loop test changes the state or advances input_position"
+                          % (tag, st), "P" in fs, "holds on every path of the case",
+                          "in state %s there is a path back to the loop test that neither leaves the state nor advances "
+                          "input_position (reaching the loop end from %s): the parser loops forever on the inputs that take it"
+                          % (st, ", ".join(culprits[:3]) or "?"),
+                          where=(blk[e0]["stmts"][0]["loc"] if blk[e0]["stmts"] else f["loc"]).replace("/repo/", ""))
+    ctx.floor("T1", nstates, 36, "state cases with a path back to the loop test")
+
+
+def loop_key(f, blk, h):
+    c = blk[h]["term"].get("cond")
+    return "%s | %s" % (f["qname"], rn(c) if c is not None else "(no test)")
+
+
+def check_loops(ctx, fx, cfg):
+    """T2.  Every loop that had a recognised variant when the table was confirmed must still have one."""
+    import json
+    import os
+    from lib import loops as L
+    with open(os.path.join(os.path.dirname(os.path.dirname(os.path.abspath(__file__))), "spec", "loops_confirmed.json")) as fh:
+        table = json.load(fh)["loops"]
+    now = {}
+    seen = set()
+    for f in fx.functions:
+        if not C.first_party(f):
+            continue
+        blk = {b["id"]: b for b in f["blocks"]}
+        for h, body, latches in L.natural_loops(f):
+            loc = blk[h]["term"].get("loc") or (blk[h]["stmts"][0]["loc"] if blk[h]["stmts"] else "?")
+            if (f["qname"], loc) in seen:
+                continue           # a second instantiation of the same template
+            seen.add((f["qname"], loc))
+            v, why = L.classify(f, h, body, latches)
+            now.setdefault(loop_key(f, blk, h), []).append((v, why, loc.replace("/repo/", "")))
+    nv = 0
+    for key, ents in sorted(now.items()):
+        want = table.get(key)
+        have_v = sum(1 for v, w, l in ents if v == "variant")
+        nv += have_v
+        if want is None:
+            for v, w, l in ents:
+                if v != "variant":
+                    ctx.note("T2: loop `%s` at %s is not in the confirmed table and has no recognised variant (not decided)" % (key, l))
+            continue
+        if have_v < want["variant"]:
+            for v, w, l in ents:
+                if v != "variant":
+                    ctx.fail("T2", "%s at %s" % (key, l), "this loop had a variant (a variable that moves towards a fixed bound on "
+                             "every iteration) and no longer has one: %s — it can run forever" % w, where=l)
+        else:
+            for v, w, l in ents:
+                if v == "variant":
+                    ctx.ok("T2", "%s at %s" % (key, l), w, where=l)
+    ctx.floor("T2", nv, 125, "loops with a recognised variant")
